@@ -253,6 +253,25 @@ def r12_6_create(repo: Repo, rep: Report):
     rep.check("R12.6", bool(ok), m, rets[-1] if rets else cr, "returns (calldata, dyn_params) after the check (or early for no parameters)", "create must return the calldata together with all dynamic parameter records")
 
 
+def r12_8_registration_survives(repo: Repo, rep: Report):
+    rep.rule("R12.8", "size candidates are registered on the path after it was extended from the previous state (extend_path replaces the path's Concretization)")
+    n = 0
+    for modname in ("__main__", "sevm", "cheatcodes"):
+        m = repo.mod(modname)
+        for q, fn in repo.functions(modname):
+            ext = [c for c in body_walk(fn) if isinstance(c, ast.Call) and last_attr(c) == "extend_path" and isinstance(c.func, ast.Attribute)]
+            reg = [c for c in body_walk(fn) if isinstance(c, ast.Call) and last_attr(c) == "process_dyn_params" and isinstance(c.func, ast.Attribute)]
+            for r in reg:
+                for e in ext:
+                    if src(e.func.value) == src(r.func.value):
+                        n += 1
+                        rep.check("R12.8", e.lineno < r.lineno, m, r, f"{modname}.{q}: {src(e)[:40]} precedes {src(r)[:50]}", "the candidates registered for the new calldata are discarded when the path is then extended from the previous state: calldataload never branches over the configured lengths")
+    # extend_path really replaces the concretization (if it merged instead, the order would not matter)
+    ms, ep = repo.fn("sevm.Path.extend_path")
+    rep.check("R12.8", any(isinstance(st, ast.Assign) and src(st.targets[0]) == "self.concretization" for st in body_walk(ep)), ms, ep, "Path.extend_path rebinds self.concretization", "anchor changed: extend_path no longer replaces the concretization")
+    rep.floor("R12.8", 2, "extend_path / process_dyn_params pairs")
+
+
 def r12_7_shared(repo: Repo, rep: Report):
     """the length substitution of a path (Concretization) must be the path's own: fork-copy completeness (shared with C20)"""
     from hsa.rules.c20 import r20_1_fork_copies, r20_5_uid_nominal
@@ -267,4 +286,4 @@ def r12_7_shared(repo: Repo, rep: Report):
     r18_6b_array_length_patterns(repo, rep)
 
 
-RULES = [r12_7_shared, r12_1_type_coverage, r12_2_allow_list, r12_3_leaf_freshness, r12_4_candidates, r12_5_static_dynamic, r12_6_create]
+RULES = [r12_7_shared, r12_1_type_coverage, r12_2_allow_list, r12_3_leaf_freshness, r12_4_candidates, r12_5_static_dynamic, r12_6_create, r12_8_registration_survives]
